@@ -111,6 +111,20 @@ def run_trace(rng, spec, nops, kinds=None, oracles=("xref", "sync", "ctx"), extr
                     and all(Fraction(c) != 0 for _, c in r0["st"]):
                 modelled = True
                 line_op = {"op": "add_rxn", "r": r0["id"], "lb": r0["lb"], "ub": r0["ub"], "st": [[x, c] for x, c in r0["st"]]}
+        if op["op"] == "add_rxns" and len(op["rxns"]) == 1 and op["rxns"][0]["rule"] and ex.depth == 0 and in_universe(ex.model):
+            # add_reactions([R]) outside a context with a reaction that carries a gene rule: Core.addRxnR (the rule text is parsed by the Lean GPR parser;
+            # genes the model lacks join it, the others are re-pointed to the model's own objects)
+            r0 = op["rxns"][0]
+            mids = [x for x, _ in r0["st"]]
+            try:
+                from cobra.core.gene import GPR
+                rule_genes = {g for g in GPR.from_string(r0["rule"]).genes}
+            except Exception:
+                rule_genes = None
+            if r0["id"] in UNIV_R and len(set(mids)) == len(mids) and all(x in ex.model.metabolites for x in mids) \
+                    and all(Fraction(c) != 0 for _, c in r0["st"]) and rule_genes is not None and rule_genes <= UNIV_G_SET:
+                modelled = True
+                line_op = {"op": "add_rxn_r", "r": r0["id"], "lb": r0["lb"], "ub": r0["ub"], "st": [[x, c] for x, c in r0["st"]], "rule": r0["rule"]}
         if op["op"] == "add_model_mets" and len(op["ms"]) == 1 and op["ms"][0] in UNIV_M:
             # add_metabolites([Metabolite(m)]): Core.addMet (an id that is taken is filtered out)
             modelled = True
